@@ -66,22 +66,32 @@ theorem c17_arguments (ev : String → Outcome) (d : MDef) (j : Nat) (hv : valid
     simp [processorSignatures, List.lookup, metricCallArgs, argValue]
 
 /-- **value** — no expression (or an empty one) ⇒ 1; an int ⇒ that number; a bool ⇒ 1 / 0; a float ⇒ itself;
-    a failing expression or a value `float()` refuses ⇒ 1. -/
+    a failing expression or a value `float()` refuses (not a number, an int too large for a float, a `__float__`
+    that raises) ⇒ 1. -/
 theorem c17_value (ev : String → Outcome) (d : MDef) :
     (truthy d.expr = none → metricValue ev d = "1.0") ∧
     (∀ e, truthy d.expr = some e → (ev e).failed = true → metricValue ev d = "1.0") ∧
     (∀ e, truthy d.expr = some e → floatRepr (ev e) = none → metricValue ev d = "1.0") ∧
     (∀ e r, truthy d.expr = some e → floatRepr (ev e) = some r → metricValue ev d = r) ∧
     (∀ e n, truthy d.expr = some e → (ev e).failed = false → (ev e).isExc = false → (ev e).val = .int n →
-        metricValue ev d = toString n ++ ".0") := by
-  refine ⟨?_, ?_, ?_, ?_, ?_⟩
+        n.natAbs < 2 ^ 1024 → metricValue ev d = toString n ++ ".0") ∧
+    (∀ e n, truthy d.expr = some e → (ev e).val = .int n → n.natAbs ≥ 2 ^ 1024 → metricValue ev d = "1.0") := by
+  refine ⟨?_, ?_, ?_, ?_, ?_, ?_⟩
   · intro h; simp [metricValue, h, defaultValue, metricValueDefault, intFloat]; decide
   · intro e h hf
     simp [metricValue, h, floatRepr, hf, defaultValue, metricValueDefault, intFloat]; decide
   · intro e h hf
     simp [metricValue, h, hf, defaultValue, metricValueDefault, intFloat]; decide
   · intro e r h hf; simp [metricValue, h, hf]
-  · intro e n h h1 h2 h3; simp [metricValue, h, floatRepr, h1, h2, h3, intFloat]
+  · intro e n h h1 h2 h3 h4
+    have : ¬ (n.natAbs ≥ 2 ^ 1024) := by omega
+    simp [metricValue, h, floatRepr, h1, h2, h3, intFloat, this]
+  · intro e n h h3 h4
+    have hd : defaultValue = "1.0" := by decide
+    simp only [metricValue, h, floatRepr, h3]
+    split
+    · simpa using hd
+    · simpa using hd
 
 /-- examples of `float()` on text -/
 example : parseFloatText " 12 " = some "12.0" ∧ parseFloatText "3.50" = some "3.5" ∧
